@@ -365,6 +365,10 @@ func (persistComp) Gen(rng *rand.Rand, tier string) [][]string {
 			switch {
 			case x < 55:
 				v := pick(rng, "nil", "-", "aa", "bb", fmt.Sprintf("%02x%02x", s, rng.Intn(256)), strings.Repeat("cd", 40))
+				if i%6 == 5 && rng.Intn(10) == 0 {
+					// large values (a size threshold somewhere on the write path must not change what a key reads as)
+					v = pick(rng, "rep:4097:e1", "rep:65537:e2", "rep:1048593:e3", "rep:1048576:e4")
+				}
 				h = append(h, fmt.Sprintf("put %s %s", k, v))
 			case x < 80:
 				h = append(h, "rm "+k)
